@@ -38,6 +38,12 @@ def neighbours(R, s: str, k: int = 6) -> list[str]:
         else:
             i = R.randrange(len(s) + 1)
             out.add(s[:i] + R.choice('ab*?.x/') + s[i:])
+    # a trailing newline is the one edit Python's `$` (and `re.match` used for `fullmatch`) would forgive
+    # (added after seeded changes C09d / C01a / C08d: include loop switched from fullmatch to match)
+    out.add(s + '\n')
+    out.add('\n' + s)
+    if s.endswith('\n'):
+        out.add(s[:-1])
     out.discard(s)
     return sorted(out)
 
